@@ -783,12 +783,17 @@ pub fn run(out_prefix: &str, shards: usize, family: &str, seed: u64, scale: usiz
         // exhaustive small: F(2,2) x kinds x reprs x all hays <= 4 x all spans
         "enum" => {
             let hays = gen::all_hays(b"ab", 2 + scale.min(2));
+            // with a third byte the automaton falls back to its start state, where a
+            // prefilter (when there is one) takes over
+            let hays3 = gen::all_hays(b"abc", 2 + scale.min(2));
             for pats in gen::family(b"ab", 2, 2) {
                 for &mk in &f.mks {
-                    for repr in ["nc", "top-auto"] {
-                        let c = Ctx::new(&pats, mk, repr);
+                    for (repr, pre) in [("nc", false), ("top-auto", false), ("c", true)] {
+                        let mut c = Ctx::new(&pats, mk, repr);
+                        c.pre = pre;
+                        let hays = if pre { &hays3 } else { &hays };
                         with_ctx(&mut out, &mut stats, &c, &mut |r, s| {
-                            for h in &hays {
+                            for h in hays {
                                 for sp in gen::all_spans(h.len()) {
                                     all_flavours(r, s, &c, f, h, sp);
                                 }
@@ -812,8 +817,9 @@ pub fn run(out_prefix: &str, shards: usize, family: &str, seed: u64, scale: usiz
                 c.bc = rg.gen_bool(0.7);
                 c.dd = *[-1i64, 0, 1, 2, 50].get(rg.gen_range(0..5)).unwrap();
                 c.sk = SKS[rg.gen_range(0..3)];
-                let hays: Vec<Vec<u8>> =
+                let mut hays: Vec<Vec<u8>> =
                     (0..12).map(|_| gen::random_hay(&mut rg, &pats, ci, 40)).collect();
+                hays.extend(gen::stale_hays(&mut rg, &pats, 2));
                 let spans: Vec<(usize, usize)> =
                     hays.iter().map(|h| gen::random_span(&mut rg, h.len())).collect();
                 with_ctx(&mut out, &mut stats, &c, &mut |r, s| {
@@ -1187,12 +1193,38 @@ pub fn run(out_prefix: &str, shards: usize, family: &str, seed: u64, scale: usiz
             let mut rg = gen::rng(seed, 0xCA11_0006);
             let hays = gen::all_hays(b"aAb@", 3);
             for (pi, pats) in gen::family(b"aAb", 2, 2).iter().enumerate() {
-                if scale < 2 && pi % 2 == 1 {
-                    continue;
-                }
                 for &mk in &f.mks {
+                    // with and without a prefilter (a single pattern gets a substring prefilter,
+                    // several get byte prefilters), alternating by list and kind
                     let mut c = Ctx::new(pats, mk, ["nc", "top-auto", "c", "dfa"][pi % 4]);
                     c.ci = true;
+                    c.pre = (pi + mk.len()) % 2 == 0 || pats.len() == 1;
+                    with_ctx(&mut out, &mut stats, &c, &mut |r, s| {
+                        for h in &hays {
+                            all_flavours(r, s, &c, f, h, (0, h.len()));
+                        }
+                    });
+                }
+            }
+            // one pattern, written all-lowercase / all-uppercase / mixed, letters next to
+            // non-letters: the single-substring prefilter must not be case-exact
+            for i in 0..(6 * scale) {
+                let base: Vec<u8> = prefilter_lists(&mut rg, 0).remove(0);
+                let mut base = base;
+                if i % 2 == 1 { let k = rg.gen_range(0..=base.len()); base.insert(k, [b'@', b'[', b'1', 0xC1][i / 2 % 4]); }
+                for render in 0..3 {
+                    let p: Vec<u8> = match render { 0 => base.to_ascii_lowercase(), 1 => base.to_ascii_uppercase(),
+                        _ => base.iter().enumerate().map(|(j, &b)| if j % 2 == 0 { b.to_ascii_uppercase() } else { b }).collect() };
+                    let pats: Pats = vec![p];
+                    let mk = f.mks[(i + render) % f.mks.len()];
+                    let mut c = Ctx::new(&pats, mk, ["top-auto", "nc", "c", "dfa"][(i + render) % 4]);
+                    c.ci = true;
+                    c.pre = true;
+                    let hays: Vec<Vec<u8>> = (0..6).map(|k| {
+                        let mut h = gen::random_hay(&mut rg, &pats, true, 50);
+                        match k % 3 { 0 => h.make_ascii_lowercase(), 1 => h.make_ascii_uppercase(), _ => {} }
+                        h
+                    }).collect();
                     with_ctx(&mut out, &mut stats, &c, &mut |r, s| {
                         for h in &hays {
                             all_flavours(r, s, &c, f, h, (0, h.len()));
@@ -1260,8 +1292,9 @@ pub fn run(out_prefix: &str, shards: usize, family: &str, seed: u64, scale: usiz
                 let pats = prefilter_lists(&mut rg, i);
                 let mk = f.mks[rg.gen_range(0..f.mks.len())];
                 let ci = i % 7 == 5 || (i % 7 != 6 && rg.gen_range(0..5) == 0);
-                let hays: Vec<Vec<u8>> =
+                let mut hays: Vec<Vec<u8>> =
                     (0..8).map(|_| gen::random_hay(&mut rg, &pats, ci, maxhay)).collect();
+                hays.extend(gen::stale_hays(&mut rg, &pats, 2));
                 let spans: Vec<(usize, usize)> =
                     hays.iter().map(|h| gen::random_span(&mut rg, h.len())).collect();
                 // low-level with prefilter: probes + searches
